@@ -131,6 +131,15 @@ type Try struct {
 type Return struct{ E Expr }
 type Comment struct{ S string }
 
+// API is a call of a harness jet.Func that drives the Go-side Runtime API:
+// {{ rtLet("x", v) }}, {{ rtSet("x", v) }}, {{ rtSetOrLet("x", v) }}, {{ rtLetGlobal("x", v) }},
+// {{ rtResolve("x") }}, {{ rtMustResolve("x") }}, {{ rtContext() }}, {{ rtYield("block", ctx) }}.
+type API struct {
+	Op   string
+	Name string
+	Val  Expr
+}
+
 // FailStmt is an action (printed verbatim between the delimiters) that the
 // reference expects to fail with the given class when it is executed.
 type FailStmt struct{ Src, Class string }
@@ -151,6 +160,7 @@ func (*Try) isStmt()          {}
 func (*Return) isStmt()       {}
 func (*Comment) isStmt()      {}
 func (*FailStmt) isStmt()     {}
+func (*API) isStmt()          {}
 
 // File is one template of a program.
 type File struct {
@@ -282,6 +292,21 @@ func (p *Printer) stmt(s Stmt) {
 		p.w(s.S)
 	case *Comment:
 		p.w("{*" + s.S + "*}")
+	case *API:
+		done := p.open(s)
+		switch s.Op {
+		case "Context":
+			p.w("rtContext()")
+		case "Resolve", "MustResolve":
+			p.w("rt" + s.Op + "(" + strconv.Quote(s.Name) + ")")
+		default:
+			v := "nil"
+			if s.Val != nil {
+				v = p.Expr(s.Val)
+			}
+			p.w("rt" + s.Op + "(" + strconv.Quote(s.Name) + ", " + v + ")")
+		}
+		done()
 	case *FailStmt:
 		// "\x00" in Src marks the end of the opening action of a construct with a body:
 		// the expected position is the opening action's line span only
